@@ -351,7 +351,7 @@ def corr_iter(pid, tier, seed):
         sc[0] = "S %d" % i
     r = run_scripts(pid, rundir, scen, dflags="-noevents")
     idx = {str(i): sc for i, sc in enumerate(scen)}
-    oracle = [o for o in r["oracle"] if o.split()[1] in ("C10", "C01", "C14")]
+    oracle = [o for o in r["oracle"] if o.split()[1] in ("C10", "C01", "C14", "C09")]
     sample = scen[len(scen) // 2] if scen else []
     return {"evaluations": len(scen), "distinct_nontrivial": nontrivial_count(scen, lambda sc: sum(1 for l in sc if l.startswith("E itseek") or l.startswith("E itnext")) >= 3),
             "rule": "harness/vh itergen: key sets of 0-40 keys over a three-letter alphabet, all index types and shard counts (drawn with the configuration), both directions, prefixes of length 0-3, legal call sequences (the generator simulates the cursor: every Seek target at or ahead of it), writes interleaved after creation, several iterators per scenario, ListKeys and Fold; (Valid, Key, Value) after every call compared between the real engine, the model and the reference iterator of the oracle; non-trivial = at least three Seek/Next calls; distinct by md5",
@@ -489,7 +489,7 @@ REGISTRY = {
     "C14": {
         "corr": lambda tier, seed: corr_merge_results(
             corr_engine("C14", tier, seed, "restarts,batches,merges,bigvals", 60, 1500, ops=25,
-                        dflags=NOEV, oracle_props=["C14"], extra="-variants 3"),
+                        dflags=NOEV, oracle_props=["C14", "C09"], extra="-variants 3"),
             corr_iter("C14", tier, seed)),
         "assumptions": ["the engine model has no index type / shard count parameter: every real configuration is compared with the same model run, and the lock-step variants with each other",
                         "byte-identical file layout across sync strategy / I/O type is not proved; layouts are compared with the model (positions, file sizes) in the C17/C11 checks"],
